@@ -13,4 +13,5 @@ CHECKS = {
     "C09": essa.c09,
     "C02": essa.c02,
     "C20": essa.c20,
+    "C15": essa.c15,
 }
